@@ -79,7 +79,18 @@ func panicQuery(r *hx.Rand, kind string, n int) string {
 }
 
 func randomEdges(r *hx.Rand, kind string, n int) ([]rawEdge, string) {
-	shape := hx.Pick(r, []string{"sparse", "medium", "dense", "dag", "functional", "zero", "components", "negative"})
+	shapes := []string{"sparse", "medium", "dense", "dag", "functional", "zero", "components", "negative",
+		"zerosrc", "selfloops", "parallelw"}
+	// the shapes in which the kind's algorithms have their corner cases come up most often
+	switch kind {
+	case "directed":
+		shapes = append(shapes, "selfloops", "selfloops", "dag")
+	case "wdirected":
+		shapes = append(shapes, "zerosrc", "zerosrc", "parallelw", "zero")
+	case "wundirected":
+		shapes = append(shapes, "parallelw", "parallelw", "zero")
+	}
+	shape := hx.Pick(r, shapes)
 	var es []rawEdge
 	if n == 0 {
 		if r.Chance(1, 3) {
@@ -144,6 +155,76 @@ func randomEdges(r *hx.Rand, kind string, n int) ([]rawEdge, string) {
 				es = append(es, rawEdge{v, r.Intn(n), weight()})
 			}
 		}
+	case "zerosrc":
+		// zero-weight edges out of a source and chains of them (vertices at distance 0 other than the
+		// source), mixed with positive edges and a zero-weight cycle now and then
+		src := r.Intn(n)
+		prev := src
+		for k := r.Range(1, n); k > 0; k-- {
+			nxt := r.Intn(n)
+			es = append(es, rawEdge{prev, nxt, 0})
+			if r.Bool() {
+				prev = nxt
+			} else {
+				prev = src
+			}
+		}
+		if r.Bool() {
+			es = append(es, rawEdge{prev, src, 0})
+		}
+		for k := r.Range(0, n+2); k > 0; k-- {
+			es = append(es, rawEdge{r.Intn(n), r.Intn(n), r.Range(0, wmax)})
+		}
+		for i := len(es) - 1; i > 0; i-- {
+			j := r.Intn(i + 1)
+			es[i], es[j] = es[j], es[i]
+		}
+	case "selfloops":
+		// a DAG whose only cycles are self-loops (sometimes none, sometimes one longer cycle as well)
+		perm := make([]int, n)
+		for i := range perm {
+			perm[i] = i
+		}
+		for i := n - 1; i > 0; i-- {
+			j := r.Intn(i + 1)
+			perm[i], perm[j] = perm[j], perm[i]
+		}
+		for k := r.Range(0, 2*n); k > 0 && n > 1; k-- {
+			a, b := r.Intn(n), r.Intn(n)
+			if a == b {
+				continue
+			}
+			if a > b {
+				a, b = b, a
+			}
+			es = append(es, rawEdge{perm[a], perm[b], weight()})
+		}
+		for k := r.Range(0, 3); k > 0; k-- {
+			v := r.Intn(n)
+			at := r.Intn(len(es) + 1)
+			es = append(es[:at], append([]rawEdge{{v, v, weight()}}, es[at:]...)...)
+		}
+		if r.Chance(1, 8) && n > 1 {
+			es = append(es, rawEdge{perm[n-1], perm[0], weight()})
+		}
+	case "parallelw":
+		// few vertex pairs, many parallel edges of different weights in both orientations
+		pairs := r.Range(1, n+1)
+		for k := 0; k < pairs; k++ {
+			a, b := r.Intn(n), r.Intn(n)
+			for c := r.Range(1, 4); c > 0; c-- {
+				w := r.Range(0, wmax)
+				if r.Bool() {
+					es = append(es, rawEdge{a, b, w})
+				} else {
+					es = append(es, rawEdge{b, a, w})
+				}
+			}
+		}
+		for i := len(es) - 1; i > 0; i-- {
+			j := r.Intn(i + 1)
+			es[i], es[j] = es[j], es[i]
+		}
 	case "components":
 		// two or three blocks with no edge between them
 		cut := r.Range(1, n)
@@ -201,7 +282,11 @@ func randomCase(r *hx.Rand) (string, hx.Case) {
 // large structured graphs: the stacks and queues behind DFSi, BFS, To, PathTo and Cycle cross their
 // 1024-slot blocks
 func bigCase(r *hx.Rand, kind string, shape string) hx.Case {
-	n := r.Range(2100, 3000)
+	// just past one block of 1024 (most), past two blocks (some)
+	n := r.Range(1030, 1100)
+	if r.Chance(1, 4) {
+		n = r.Range(2055, 2120)
+	}
 	var es []rawEdge
 	w := func() int { return r.Range(0, 5) }
 	switch shape {
@@ -298,6 +383,11 @@ func Main(run *hx.Run) {
 		nbig = 48
 	}
 	for k := 0; k < nbig; k++ {
+		// the large cases are the expensive ones to shrink: once something has been found (the corpus
+		// holds a minimal block-boundary case that runs first) they add nothing
+		if len(run.Stats.Violations) > 0 {
+			break
+		}
 		kind := kinds[k%4]
 		shape := shapes[(k/4+k)%len(shapes)]
 		run.Do(kind, bigCase(rb, kind, shape), Exec)
